@@ -18,7 +18,15 @@ import runner
 
 ID = "C12"
 LEAN_MODULES = ["Properties.C12"]
-THEOREMS = ["EngineModel.Properties.C12." + t for t in []]
+THEOREMS = ["EngineModel.Properties.C12." + t for t in [
+    # canon: lossless lexing, bijection onto well-formed lexeme lists, invariances, injective otherwise
+    "lex_lossless", "lex_wellformed", "lex_bijective", "canon_of_lexemes", "canon_def",
+    "canon_ws_insert", "canon_requote", "canon_quote_bare", "strip_none_iff", "strip_eq_iff",
+    "canon_eq_iff", "canon_string_eq_iff", "canon_render_canon", "canon_surjective",
+    # schemaEq: equivalence, characterisation, projections
+    "sameSet_iff", "schemaEq_iff", "schemaEq_refl", "schemaEq_symm", "schemaEq_trans", "schemaEq_equivalence",
+    "schemaEq_master", "schemaEq_sql", "schemaEq_columns", "schemaEq_indexes", "schemaEq_sizes",
+    "schemaEq_of_canon_eq", "schemaEq_detects"]]
 ASSUMPTIONS = [
     "SQLite's own storage of DDL text in sqlite_master and its PRAGMA table_info / index_list / index_info are "
     "trusted (the catalogs are read through the SQLite C API on the library's own connection / on a plain "
@@ -32,7 +40,25 @@ ASSUMPTIONS = [
     "comments and the quoting style of identifiers are forgotten (Spec/SqlCanon.lean, characterised by the lemmas "
     "of Properties/C12.lean)",
 ]
-MANIFEST = dict(text="", note="", technique="", ref="6/C12")
+MANIFEST = dict(
+    text="Finite decision: on every run every (created schema x {temporary, on-disk} x reference dump) pair is decided by the "
+         "compiled Lean comparison schemaEq on catalogs read back through the SQLite C API from the library the real code created "
+         "and from the hydrated reference scripts (pairing by the Lean version table; stamped version numbers, verify(), "
+         "reload-as-requested and temporary == on-disk == reloaded checked by direct oracles). Theorems (Properties/C12.lean) "
+         "characterise the comparison: the SQL lexer is lossless and a bijection onto well-formed lexeme lists (lex_lossless, "
+         "lex_wellformed, lex_bijective), canon = filterMap strip over it (canon_of_lexemes), invariant under whitespace / comment "
+         "insertion and the three identifier-quoting styles (canon_ws_insert, canon_requote, canon_quote_bare), injective "
+         "otherwise (canon_eq_iff), with canonical representatives (canon_render_canon); schemaEq is an equivalence "
+         "(schemaEq_equivalence) holding exactly when the (db, type, name, tbl_name, canon sql) sets, the ordered table_info "
+         "column lists and the index descriptions agree (schemaEq_iff and projections). Thorough tier additionally re-decides "
+         "the paired table inside the kernel (C12_table over Gen/SchemaFacts.lean) or reports it as skipped.",
+    note="Trusted: Lean kernel; SQLite's storage of DDL text and its PRAGMAs; harness/djv_schema.cpp (catalog reader) and the dump "
+         "text form. Exhaustive evaluation of a lemma-characterised comparison (what the finite quantifier calls for), not an "
+         "inductive proof about the creators. Schema 1.6.0 has no reference dump; schema 3.0.0 is compared but not claimed. One "
+         "known finding: the three reference dumps of 1.18.0-desktop disagree in one trigger name (ep-1.5.1).",
+    technique="Lean 4 executable Spec (lossless lexer + canon + schemaEq) with characterisation theorems; exhaustive finite "
+              "decision over catalogs of really created / hydrated libraries",
+    ref="6/C12")
 TRUSTED_EXTRA = ["harness/djv_schema.cpp (catalog reader over the SQLite C API) and the text form of a dump"]
 STATELESS = False
 
